@@ -4,6 +4,7 @@ Scenario tree, built once through the real client API on 3 real storage servers:
     root (rw dir) -> sub (rw dir) -> f.txt (CHK file), m.txt (mutable file)
                   -> rolink  = READ-cap of sub2 (dir) -> g.txt (CHK), mm.txt (mutable, stored with
                                its write-cap inside sub2), d3 (dir, write-cap stored inside sub2)
+                  -> a_sub2  = WRITE-cap of the same sub2 (sorts, and is unpacked, before rolink)
                   -> imm     = immutable directory -> h.txt (CHK)
 Read-only entry points: every directory / mutable file through its read-cap and verify-cap, plus
 every path from the root write-cap that passes through `rolink` or `imm`.
@@ -60,6 +61,9 @@ def build(seed):
         w(sub2.set_uri(u"mm.txt", mm.get_uri(), mm.get_readonly_uri()))
         d3 = w(sub2.create_subdirectory(u"d3"))
         w(root.set_uri(u"rolink", None, sub2.get_readonly_uri()))
+        # the same object is ALSO linked writeably from the same directory, under a name that is
+        # unpacked first: a node cache keyed too coarsely would hand the writeable node to `rolink`
+        w(root.set_uri(u"a_sub2", sub2.get_uri(), sub2.get_readonly_uri()))
         h = w(c.upload(Data(lib_imm.payload(82, seed, b"h"), convergence=b"c")))
         imm = w(nm.create_immutable_directory({u"h.txt": (nm.create_from_cap(h.get_uri()), {})}))
         w(root.set_uri(u"imm", None, imm.get_uri()))
